@@ -144,5 +144,38 @@ void hp_hwloc_type_sscanf(void)
   r = hwloc_type_sscanf(s.c, &type, asz ? &attr : (union hwloc_obj_attr_u *)0, asz);
   __CPROVER_assert(r == 0 || r == -1, "returns 0 or -1");
   __CPROVER_assert(r != 0 || (unsigned)type < HWLOC_OBJ_TYPE_MAX, "an accepted string yields a valid object type");
+  /* the contract the synthetic parser (C07) relies on: cache types carry their own depth and a valid cache type */
+  if (r == 0 && asz && type >= HWLOC_OBJ_L1CACHE && type <= HWLOC_OBJ_L5CACHE)
+    __CPROVER_assert(attr.cache.depth == (unsigned)(type - HWLOC_OBJ_L1CACHE) + 1 && (attr.cache.type == HWLOC_OBJ_CACHE_UNIFIED || attr.cache.type == HWLOC_OBJ_CACHE_DATA), "data/unified cache types carry depth 1..5 matching the type");
+  if (r == 0 && asz && type >= HWLOC_OBJ_L1ICACHE && type <= HWLOC_OBJ_L3ICACHE)
+    __CPROVER_assert(attr.cache.depth == (unsigned)(type - HWLOC_OBJ_L1ICACHE) + 1 && attr.cache.type == HWLOC_OBJ_CACHE_INSTRUCTION, "instruction cache types carry depth 1..3 matching the type");
+  VERIF_CANARY();
+}
+
+
+/* Table round trips (finite domains, concrete texts: complete).  For every OS-device type bit both names the printers
+ * use (short and long, as they appear inside "OS[...]", i.e. followed by ',' or ']') parse back to exactly that bit;
+ * for every object type the text of hwloc_obj_type_string() parses back to that type (caches: with their depth). */
+void hp_names_roundtrip(void)
+{
+  unsigned i; char buf[24];
+  for (i = 0; i < _HWLOC_OSDEV_TYPE_NAMES_NR; i++) {
+    hwloc_obj_osdev_types_t t = 0; size_t n; unsigned long acc = 0;
+    __CPROVER_assert(hwloc__osdev_type_sscanf(names[i].name, &t) == 1 && t == names[i].type, "the short OS-device name parses back to its own type bit");
+    t = 0;
+    __CPROVER_assert(hwloc__osdev_type_sscanf(names[i].longname, &t) == 1 && t == names[i].type, "the long OS-device name parses back to its own type bit");
+    n = strlen(names[i].name); memcpy(buf, names[i].name, n); buf[n] = ']'; buf[n + 1] = 0;
+    __CPROVER_assert(hwloc__osdev_types_sscanf(buf, &acc) == 0 && acc == names[i].type, "\"<short name>]\" (the tail of a printed OS[...] text) parses back to the type set");
+  }
+  VERIF_CANARY();
+}
+#ifndef TS_TYPE
+#define TS_TYPE 0
+#endif
+void hp_type_string_roundtrip(void)
+{
+  int t = TS_TYPE; hwloc_obj_type_t type = (hwloc_obj_type_t)-1; union hwloc_obj_attr_u attr; int r;
+  r = hwloc_type_sscanf(hwloc_obj_type_string((hwloc_obj_type_t)t), &type, &attr, sizeof(attr));
+  __CPROVER_assert(r == 0 && type == (hwloc_obj_type_t)t, "hwloc_obj_type_string(t) is accepted by hwloc_type_sscanf and gives t back");
   VERIF_CANARY();
 }
